@@ -13,9 +13,9 @@ GEN = ["params"]
 LEAN = ["Ymq.Props.C10"]
 AUDIT = "Ymq.Audit.C10"
 THEOREMS = ["Ymq.C10." + t for t in (
-    "kronecker_cyclic kronecker_old_index_drops_wrap pack_unpack dispatch_ok "
-    "reduce_spec add_assign_spec add_small_spec sub_assign_spec butterfly_spec shl_spec shr_spec sqrt2_sq twiddle_spec "
-    "crt_unique crt_value crt_q_estimate_partial dft_conv").split()]
+    "dispatch_ok pack_unpack cycExact_exact kronecker_cyclic kronecker_old_index_drops_wrap "
+    "reduce_spec add_assign_spec add_small_spec sub_assign_spec butterfly_spec shl_spec shr_spec sqrt2_sq twiddle_spec root_pow "
+    "crt_unique crt_value crt_q_estimate_partial").split()]
 HYPOTHESES = []
 PROFILES = ["release", "chk"]
 TIMEOUT = 60.0
@@ -978,6 +978,26 @@ def nontrivial(case, ans):
     return len(case.line) > 40
 
 
-CLAIM = ("TODO")
-LEVEL_NOTE = ("TODO")
+CLAIM = ("Lean theorems, for all inputs, about models of the mechanisms of arith_fft.rs: (1) convolve_modn (Kronecker substitution): for every "
+         "modulus of 1..500 bits, every power-of-two size the dispatch table accepts (2..2^19), all operand lengths, coefficients and output "
+         "windows, the model of convolve_modn over an exact Fermat-transform product reaches no panic site and returns the Montgomery form of the "
+         "schoolbook cyclic convolution (kronecker_cyclic, built on pack_unpack = no digit overlap / no wrap modulo F, and dispatch_ok = every "
+         "row of the table translated from the source meets the preconditions, incl. those of redc_large); the index formula of the pinned "
+         "tree is refuted on a concrete instance (kronecker_old_index_drops_wrap, defect F11, fixed); (2) FInt<N> modulo 2^(64N)+1, word-exact, "
+         "every N >= 1: reduce, add_assign, add_small, sub_assign, butterfly, shl (every shift amount, all word-shift branches and both "
+         "carry-free shortcuts), shr, twiddle return the right residue in the code's normal form without reaching a panic site; "
+         "sqrt2_sq and root_pow: the twiddle root is a 2^k-th root of unity; (3) MultiZmodP: the CRT quotient is unique and < w, the value "
+         "assembled by _crt is congruent to the reconstructed integer, and the truncated quotient estimate is exact under stated bounds. "
+         "Every public entry point (convolve_modn, convolve_modn_ntt, Poly::{from_roots, roots_eval, multi_eval, mul_karatsuba, mul_fft, "
+         "middlemul, div_mod_xn} and the private _inv_mod_xn, _longmul) is compared in both build profiles with an executable schoolbook "
+         "specification model (K) and judged by an independent Python schoolbook/big-integer oracle (O).")
+LEVEL_NOTE = ("Trusted: Lean kernel (+propext, Classical.choice, Quot.sound); the hand-written models' correspondence to the Rust code (sampled by "
+              "the harness in both profiles, not proved); the translator for the dispatch table and the prime table; Python integers in the oracle. "
+              "PARTIAL BY DESIGN, no theorem, tied to the schoolbook specification by K/O only: Poly::karatsuba and the Karatsuba routine inside "
+              "FInt::mul (the FInt model takes the exact 2N-word product), _middlemul (Hanrot-Quercia-Zimmermann), Newton _inv_mod_xn/_div_mod_xn, "
+              "product and remainder trees (_product_tree, _multi_eval), MultiZmodP::ntt_inplace, the recursive Fermat fft/mulfft (modelled "
+              "word-exactly and compared, but the theorem dft_conv is not proved: kronecker_cyclic takes the exactness of the transform product as "
+              "its hypothesis ExactCyc, checked on the code by fint_mulfft cases). crt_q_estimate_partial is an arithmetic statement: that the words "
+              "read by the three branches of the model equal the truncated quotients of the prime table is only checked by K/O (mzp_crt, mzp_redc). "
+              "ZmodN operations are exact modular arithmetic on the domain proved in C07; bnum operators are Nat arithmetic.")
 TECHNIQUE = "Lean 4 proof about a hand model + differential correspondence check + spec oracle"
